@@ -88,6 +88,7 @@ def gen_world(rng: SimRandom) -> dict:
         'huge': huge,
         'site_props': rng.chance(0.3),
         'array_metadata': rng.chance(0.25),
+        'empty_metadata': rng.chance(0.15),
     }
 
 
@@ -151,7 +152,9 @@ def build_root(w: dict, mode: str, idx: int):
         # array-valued annotations whose lengths happen to coincide with the number of frames / atoms / 3
         md['series'] = np.arange(w['nf'], dtype=float) * 0.5
         md['aux'] = {'per_atom': np.arange(w['na']), 'matrix': np.arange(9.0).reshape(3, 3), 'voigt': np.arange(6.0)}
-    kw = dict(species=make_species(w), lattice=L, time_step=w['time_step'], metadata=md)
+    if w.get('empty_metadata'):
+        md = {}  # (a trajectory created without metadata)
+    kw = dict(species=make_species(w), lattice=L, time_step=w['time_step'], metadata=(md if md or idx % 2 else None))
     sp_model = None
     if w.get('site_props'):
         sp_model = {'tag': [f'a{i}' for i in range(w['na'])], 'weight': [0.5 + i for i in range(w['na'])]}
@@ -309,6 +312,7 @@ def generate(run_seed: int, tier: str = 'quick', stream: str = 'seq') -> dict:
     wt = {
         'PERTURB': rng.uniform(1, 5), 'QUERY': rng.uniform(2, 6), 'DERIVE': rng.uniform(1, 4), 'EXTEND': rng.uniform(0, 1.5),
         'SPAWN': rng.uniform(0, 0.8) if n_sys > 1 else rng.uniform(0, 0.2), 'DROP': rng.uniform(0, 1.5),
+        'SET_META': rng.pick([0, 0, 0.3, 0.8]),
     }
     disabled_q = {q for q in QUERIES if rng.chance(0.15)}
     n_ops = rng.randint(20, 120 if tier == 'quick' else 250)
@@ -375,7 +379,12 @@ def generate(run_seed: int, tier: str = 'quick', stream: str = 'seq') -> dict:
                 st = rng.pick([None, None, 1, 2, 3, -1, -2])
                 op['slice'] = [part(), part(), st]
             elif d in ('listidx', 'arrayidx'):
-                op['idx'] = [rint(-nf, nf - 1) for _ in range(rng.randint(1, 5))]
+                if rng.chance(0.4):  # evenly spaced, ascending or descending, possibly running into frame 0
+                    a, st = rint(0, nf - 1), rng.pick([1, 2, 3, 5, -1, -2, -3, -5])
+                    b = rng.pick([-1, nf]) if rng.chance(0.5) else rint(-1, nf)
+                    op['idx'] = list(range(a, b, st))[:12] or [a]
+                else:
+                    op['idx'] = [rint(-nf, nf - 1) for _ in range(rng.randint(1, 5))]
             elif d == 'intidx':
                 op['i'] = rint(-nf, nf - 1)
             elif d == 'split':
@@ -398,6 +407,8 @@ def generate(run_seed: int, tier: str = 'quick', stream: str = 'seq') -> dict:
             op = {'op': 'SPAWN', 'sys': rng.randrange(n_sys), 'mode': 'disp_nobase' if rng.chance(0.06) else rng.pick(ROOT_MODES), 'name': f's{counter}', 'client': client}
             names.append(op['name'])
             ops.append(op)
+        elif kind == 'SET_META':
+            ops.append({'op': 'SET_META', 'obj': ref(), 'k': rng.randrange(3), 'v': rng.randrange(100), 'client': client})
         elif kind == 'DROP':
             ops.append({'op': 'DROP', 'obj': ref(), 'held': rng.chance(0.3), 'gc': rng.chance(0.3), 'client': client})
     return {
@@ -412,12 +423,14 @@ def generate(run_seed: int, tier: str = 'quick', stream: str = 'seq') -> dict:
 
 
 class Entry:
-    __slots__ = ('name', 'T', 'M', 'depth', 'origin', 'kind', 'amb', 'dc', 'sys')
+    __slots__ = ('name', 'T', 'M', 'depth', 'origin', 'kind', 'amb', 'dc', 'sys', 'family', 'loose_keys')
 
     def __init__(self, name, T, M, depth, origin, kind='traj', dc=0, sys=0):
         self.name, self.T, self.M, self.depth, self.origin, self.kind = name, T, M, depth, origin, kind
         self.dc = dc
         self.sys = sys
+        self.family = name  # root of the derivation tree this object belongs to (set by add_entry for derived objects)
+        self.loose_keys = set()  # metadata keys a *user* wrote on a relative: may or may not be visible here (shared or copied dict)
         if kind == 'nobase':
             self.amb = False
             return
@@ -479,7 +492,9 @@ class Run:
             self.violation('lattice_changed', f'{e.name} ({why}): lattice differs from model', sig)
         if T.time_step != M['time_step']:
             self.violation('time_step_changed', f'{e.name} ({why}): time_step {T.time_step} != {M["time_step"]}', sig)
-        if not md_equal(dict(T.metadata), M['metadata']):
+        have = {k: v for k, v in dict(T.metadata).items() if k not in e.loose_keys}
+        want = {k: v for k, v in M['metadata'].items() if k not in e.loose_keys}
+        if not md_equal(have, want):
             self.violation('metadata_changed', f'{e.name} ({why}): metadata {T.metadata} != {M["metadata"]}', sig)
         want = M.get('site_props')
         if want != 'any':
@@ -665,6 +680,8 @@ class Run:
             M.pop('B_expected')
         M['B'] = B
         e = Entry(name, T, M, parent.depth + 1, origin, dc=parent.dc + (1 if origin == 'drift_correct' else 0), sys=parent.sys)
+        e.family = parent.family
+        e.loose_keys = set(parent.loose_keys)
         self.pool[name] = e
         self.check_entry(e, f'at creation by {origin}')
         return e
@@ -693,7 +710,7 @@ class Run:
             except Exception as ex:  # noqa: BLE001
                 self.violation('derive_raised', f'{how}({arg!r}) on {e.name} raised {type(ex).__name__}: {ex}', {'how': how})
             self.add_entry(name, new, M2, e, how)
-            if how != 'filter' and not md_equal(dict(new.metadata), e.M['metadata']):
+            if how != 'filter' and not md_equal({k: v for k, v in dict(new.metadata).items() if k not in e.loose_keys}, {k: v for k, v in e.M['metadata'].items() if k not in e.loose_keys}):
                 self.violation('metadata_changed', f'{how} dropped or changed metadata', {'how': how})
         elif how == 'intidx':
             n = len(e.M['P'])
@@ -815,13 +832,28 @@ class Run:
         self.trace.log(ev='EXTEND', step=self.step, a=a.name, b=b.name, client=op.get('client'))
         # which metadata the extended trajectory carries is not pinned down beyond "its own stay": it must keep every old key with
         # its old value (a merge into a NEW dict is tolerated and adopted by the model); everybody else must be exactly unchanged
-        md = dict(a.T.metadata)
+        md = {k: v for k, v in dict(a.T.metadata).items() if k not in a.loose_keys}
         if not md_equal(md, a.M['metadata']) and all(k in md and md_equal(md[k], v) for k, v in a.M['metadata'].items()):
             shared = [x.name for x in self.pool.values() if x is not a and x.kind == 'traj' and x.T.metadata is a.T.metadata]
             if not shared:
                 a.M = dict(a.M, metadata=md)
         self.check_entry(a, 'after extend')
         self.check_entry(b, 'appended trajectory after extend')
+
+    def op_set_meta(self, op):
+        """The user annotates one trajectory (a legal write to its metadata).  Relatives that share or copied the dict may or may
+        not see the new key; every unrelated trajectory must not."""
+        e = self.pool.get(op['obj'])
+        if e is None or e.kind != 'traj':
+            return self.trace.log(ev='SET_META', step=self.step, skipped=True)
+        key = f"user_{op.get('k', 0) % 3}"
+        e.T.metadata[key] = op.get('v', 1)
+        for x in self.pool.values():
+            if x.family == e.family:
+                x.loose_keys.add(key)
+        self.stats.probe('user_metadata_write')
+        self.trace.log(ev='SET_META', step=self.step, name=e.name, key=key)
+        self.check_all('after a user wrote metadata of ' + e.name)
 
     def op_spawn(self, op):
         si = op['sys'] % len(self.systems)
@@ -1182,7 +1214,7 @@ class Run:
         self.trace.log(ev='world', systems=self.systems, roots=[list(r) for r in self.roots])
         self.check_all('initial')
         table = {'PERTURB': self.op_perturb, 'DERIVE': self.op_derive, 'EXTEND': self.op_extend, 'QUERY': self.op_query,
-                 'SPAWN': self.op_spawn, 'DROP': self.op_drop}
+                 'SPAWN': self.op_spawn, 'DROP': self.op_drop, 'SET_META': self.op_set_meta}
         for i, op in enumerate(self.sc['ops']):
             self.step = i
             table[op['op']](op)
